@@ -21,6 +21,10 @@ iteration is allowed to call "converged" and how solid-solution fractions are fo
                 amount as inert before the iterations (set_inert_moles) and restoring it afterwards (unset_inert_moles).  In
                 Phreeqc::model the parking call dominates every solver entry (model_pz, model_sit, the default loop's ineq)
                 and every restore, and every return is preceded by a restore
+  C03.accum     a mineral that carries an element the solution lacks must still enter the model: the element list of an
+                assemblage (elt_list_NameDouble() after a loop over its phases) is accumulated over ALL phases - the accumulator
+                reset `count_elts = 0` that precedes a use lies in the same loop nest as the use, not inside an inner loop that
+                the use has already left (23 accumulate/use pairs in the engine)
 The unknown-type codes (macros) are recovered from the set-up functions (setup_exchange, setup_surface, setup_pure_phases,
 setup_ss_assemblage).
 Not decided: SI = target / phase absent with SI <= target, dissolve_only / precipitate_only / force_equality (inequality solver
@@ -160,6 +164,7 @@ def run(P, R, tier):
 
     quick_rule(P, R, pp[0])
     inert_rule(P, R)
+    accum_rule(P, R)
     # ------------------------------------------------------------------ solid-solution fractions
     R.rule("C03.ssfrac", "solid-solution fractions: total and fractions from the same clamped amounts over the same list; log of the same quotient; ideal <=> both parameters zero; lambda = 1", minimum=6)
     g = P.one("Phreeqc::calc_ss_fractions")
@@ -311,3 +316,44 @@ def inert_rule(P, R):
         else:
             R.violation("C03.inert", inst, "%s() at line %d can be reached without set_inert_moles(): precipitate_only phases are treated as ordinary reversible phases on that path"
                         % (T.callee_name(c), c[1]), line=c[1], **where)
+
+
+def accum_rule(P, R):
+    R.rule("C03.accum", "element-list accumulators are reset in the loop nest of their use, not in an inner loop the use has left", minimum=15)
+    LOOPS = ("For", "While", "Do", "RangeFor")
+    tot = 0
+    for key, f in sorted(P.functions.items()):
+        if not f["q"].startswith("Phreeqc::"):
+            continue
+        events = []
+
+        def rec(n, loops):
+            if not T.is_node(n):
+                return
+            if n[0] in LOOPS:
+                for c in T.children(n):
+                    rec(c, loops + [n[1]])
+                return
+            if n[0] == "Bin" and n[2] == "=" and T.text(n[3]).endswith("count_elts") and T.lit_value(n[4]) == 0:
+                events.append(("reset", n[1], tuple(loops)))
+            if n[0] == "Call" and T.callee_name(n) == "elt_list_NameDouble":
+                events.append(("use", n[1], tuple(loops)))
+            for c in T.children(n):
+                rec(c, loops)
+        rec(f["body"], [])
+        events.sort(key=lambda e: e[1])
+        last = None
+        for e in events:
+            if e[0] == "reset":
+                last = e
+            elif last is not None:
+                tot += 1
+                inst = "%s:use@%d" % (f["q"].split("::")[-1], e[1])
+                if len(last[2]) <= len(e[2]) and e[2][:len(last[2])] == last[2]:
+                    R.ok("C03.accum", inst, "reset at line %d in the same loop nest" % last[1])
+                else:
+                    R.violation("C03.accum", inst, "the element list used at line %d was last reset at line %d inside the loop at line %d, which the use has left: it holds the elements of the "
+                                "last item only (a phase with an element the solution lacks is then left out of the model)" % (e[1], last[1], last[2][-1]),
+                                file=f["file"], line=last[1], function=f["q"])
+    if tot < 15:
+        R.anchor_missing("C03.accum", "only %d accumulate/use pairs of the element list found" % tot)
